@@ -65,6 +65,23 @@ def run(ctx):
                 recs.append(rec)
                 if rec["cmds"]:
                     ctx.nontrivial(json.dumps([prof, k, text, o, n]))
+        # ---- the generator path: the same kind of case through annet.gen._old_new_per_device (real PartialGenerators that yield the
+        # ACL-confined part of `new`, the device's running config as text), then _diff_and_patch with what that returned
+        from .. import genrun
+        for k in range(1, len(cat.entries) + 1):
+            if cat.names[k - 1] in skip_names:
+                continue
+            cs = cat.configs[k]
+            for _ in range(25 if quick else 600):
+                o, n = rnd.choice(cs), rnd.choice(cs)
+                parts = [("genA", aclgen.acl_from_rulebook(rnd, cat.entries[k - 1]["rules"], gen="genA", p=rnd.choice([0.0, 0.5, 0.7])))]
+                if rnd.random() < 0.5:
+                    parts.append(("genB", aclgen.acl_from_rulebook(rnd, cat.entries[k - 1]["rules"], gen="genB", p=0.4)))
+                rec = gen_path_case(ctx, cat, k, parts, o, n, rnd, len(recs))
+                if rec is not None:
+                    recs.append(rec)
+                    if rec["cmds"]:
+                        ctx.nontrivial(json.dumps([prof, k, "genpath", rec["acl_text"], o, n]))
         ctx.count(len(recs))
         ctx.sample({"profile": prof, "acl": recs[0]["acl_text"], "old": recs[0]["old"], "new": recs[0]["new"], "cmds": recs[0]["cmds"]}, limit=2)
         slim = [{k: v for k, v in r.items() if k not in ("acl_text", "exc")} for r in recs]
@@ -98,6 +115,50 @@ def mc_pipeline(ctx, quick):
                                                                       "design-level instance of the recorded %ordered-block finding"))
         elif r.violated:
             raise core.Machinery("MC_Pipeline entry %d: %s\n%s" % (e, r.violated, r.out[-1500:]))
+
+
+def tree_prog(t):
+    """a generator program (vf/genrun.py vocabulary) that yields exactly the paths of a tree"""
+    prog = []
+    for row, kids in t.items():
+        if kids:
+            prog.append({"op": "enter", "row": row.split()})
+            prog += tree_prog(kids)
+            prog.append({"op": "leave"})
+        else:
+            prog.append({"op": "y", "row": row.split()})
+    return prog
+
+
+def gen_path_case(ctx, cat, k, parts, o, n, rnd, seq):
+    from annet import api
+    from annet.annlib.rbparser.acl import compile_acl_text
+    from annet.annlib.patching import apply_acl, AclNotExclusiveError
+    from annet.generators.exceptions import GeneratorError
+    from .. import genrun
+    gens, acl = [], []
+    for name, rules in parts:
+        text = "\n" + "".join("    " + ln + "\n" for ln in aclgen.acl_text(rules))
+        # what this generator yields: the part of `new` its own ACL covers (annet's own filter used for input shaping only)
+        mine = apply_acl(cases.tree(n), compile_acl_text("\n".join(aclgen.acl_text(rules)) + "\n", cat.vendor)) if rules else cases.tree([])
+        gens.append(genrun.make_generator(name, tree_prog(mine), text, cat.vendor))
+        acl += rules
+    dev = genrun.Dev(cat.hw)
+    rec = {"id": "%s-%s-gen%d" % (cat.profile, cat.names[k - 1], seq), "rb": k, "acl": aclgen.judge_view(acl), "old": o, "new": n,
+           "acl_text": "\n--\n".join("\n".join(aclgen.acl_text(r)) for _n, r in parts)}
+    try:
+        res = genrun.old_new(dev, gens, running_text=cat.formatter.join(cases.tree(o)))
+        if res.err is not None:
+            raise res.err
+        d, p = api._diff_and_patch(cat.device, res.old, res.new, res.acl_rules, None, False, rb=cat.compiled[k - 1])
+        rec["cmds"] = cases.jpaths(cat.formatter.cmd_paths(p))
+    except (AclNotExclusiveError, GeneratorError) as e:
+        ctx.skip("generator path: run refused (%s)" % type(e).__name__)
+        return None
+    except Exception as e:
+        rec["cmds"] = []
+        rec["exc"] = repr(e)
+    return rec
 
 
 def combined_text(rnd, parts):
